@@ -142,13 +142,56 @@ def tab_lit(tab):
     return listlit([f'({zlit(i)}, {blit(v)})' for i, v in tab])
 
 
+def ipt(c):
+    """a Coordinate on the integer grid as an exact (int, int)"""
+    lon, lat = c.longitude, c.latitude
+    assert float(lon).is_integer() and float(lat).is_integer(), (lon, lat)
+    return (int(lon), int(lat))
+
+
+def member_vertices(ms):
+    """the vertices CollectionBase._get_vertices collects (points: centroid, lines: vertices,
+    polygon-likes: bounding_coords), as exact integer pairs"""
+    out = []
+    for x in ms:
+        if isinstance(x, GeoPoint):
+            out.append(ipt(x.centroid))
+        elif isinstance(x, GeoLineString):
+            out += [ipt(c) for c in x.vertices]
+        else:
+            out += [ipt(c) for c in x.bounding_coords()]
+    return out
+
+
+def in_closed_hull(v, ring):
+    """exact: v lies in the closed convex polygon `ring` (closed list of integer vertices, either
+    winding; degenerate rings = a point or a segment are handled by the extent test)"""
+    xs, ys = [p[0] for p in ring], [p[1] for p in ring]
+    if not (min(xs) <= v[0] <= max(xs) and min(ys) <= v[1] <= max(ys)):
+        return False
+    sg = set()
+    for a, b in zip(ring, ring[1:]):
+        cr = (b[0] - a[0]) * (v[1] - a[1]) - (b[1] - a[1]) * (v[0] - a[0])
+        if cr:
+            sg.add(cr > 0)
+    return len(sg) <= 1
+
+
+READABLE = ('bounds', 'convex_hull', 'len', 'centroid', 'geospan')
+
+
+def read_attrs(c, attrs):
+    for a in attrs:
+        guarded(lambda: len(c) if a == 'len' else getattr(c, a))
+
+
 def run_case(spec):
     """spec = {'kind': 'FC'|'TR', 'shapes': [...], 'steps': [...]} -> (literal, meta, property failures, stats)"""
     cls = Track if spec['kind'] == 'TR' else FeatureCollection
     objs = [build(s) for s in spec['shapes']]
     keep = list(objs)
     idmap = {id(x): i for i, x in enumerate(objs)}
-    fails, stats = [], {'steps': 0, 'skipped': 0, 'asym': 0, 'proper': 0, 'classes': []}
+    fails, stats = [], {'steps': 0, 'skipped': 0, 'asym': 0, 'proper': 0, 'results': 0, 'shrunk': 0, 'hulls': 0, 'classes': []}
 
     def outcome(r):
         if r[0] != 'Ok':
@@ -165,15 +208,138 @@ def run_case(spec):
     elif first[0] != 'Ok':
         fails.append(('constructor', f'raised {first[1]}'))
     steps_lit = []
+
+    def union_bounds(ms):
+        bs = [x.bounds for x in ms]
+        return (min(b[0] for b in bs), min(b[1] for b in bs), max(b[2] for b in bs), max(b[3] for b in bs))
+
+    def observe(res, extra_lits, label, src_members):
+        """derived attributes of a RESULT collection must be those of ITS members"""
+        ms = list(res.geoshapes)
+        ids = [idmap[id(x)] for x in ms]
+        n = len(res)
+        it = [idmap[id(x)] for x in res]
+        if n != len(ms) or it != ids or bool(res) != (len(ms) > 0):
+            fails.append(('list protocol (result)', f'{label}: len={n} bool={bool(res)} iter={it} for members {ids}'))
+        rb = guarded(lambda: tuple(res.bounds))
+        want = ('Ok', union_bounds(ms)) if ms else ('Err', 'ValueError')
+        if rb != want:
+            fails.append(('coll_bounds (of a result)', f'{label}: result.bounds = {rb}, union of the result members\' bounds = {want}'))
+        if ms:
+            h = guarded(lambda: [ipt(c) for c in res.convex_hull.outline])
+            verts = member_vertices(ms)
+            if h[0] != 'Ok':
+                fails.append(('hull_contains_members (of a result)', f'{label}: convex_hull raised {h[1]}'))
+            else:
+                stats['hulls'] += 1
+                if not set(h[1]) <= set(verts):
+                    fails.append(('hull_contains_members (of a result)',
+                                  f'{label}: hull vertices {sorted(set(h[1]) - set(verts))} are not vertices of the result members'))
+                out = [v for v in verts if not in_closed_hull(v, h[1])]
+                if out:
+                    fails.append(('hull_contains_members (of a result)', f'{label}: member vertices {out[:4]} outside the hull {h[1]}'))
+            if src_members and want[1] != union_bounds(src_members):
+                stats['shrunk'] += 1
+        stats['results'] += 1
+        rbl = f'(Ok {box_lit(rb[1])})' if rb[0] == 'Ok' else f'(Err {rb[1]})'
+        steps_lit.append(f'FRes {listlit([zlit(i) for i in ids])} {extra_lits} {rbl} {zlit(n)}')
+
+    def apply_sel(c, st):
+        """a selecting operation on collection c, with the members the per-shape calls select:
+        (guarded result, expected member objects | 'KeyError' | None when a per-shape call raised)"""
+        ms = list(c.geoshapes)
+        k = st[0]
+        if k in ('int', 'contains', 'contained_by'):
+            q = build(st[1])
+            keep.append(q)
+            call = {'int': lambda x: x.intersects(q), 'contains': lambda x: x.contains(q),
+                    'contained_by': lambda x: q.contains(x)}[k]
+            per = [guarded(lambda x=x: bool(call(x))) for x in ms]
+            if any(p[0] != 'Ok' for p in per):
+                return None, None
+            fn = {'int': c.filter_by_intersection, 'contains': c.filter_contains, 'contained_by': c.filter_contained_by}[k]
+            return guarded(lambda: fn(q)), [x for x, p in zip(ms, per) if p[1]]
+        if k == 'dt':
+            d = st[1]
+            return (guarded(lambda: c.filter_by_dt(to_dt(d, st[2]))),
+                    [x for x in ms if x.dt is not None and of_dt(x.dt.start) == d == of_dt(x.dt.end)])
+        if k == 'iv':
+            q = TimeInterval(to_dt(st[1], st[3]), to_dt(st[2], st[3]))
+            return guarded(lambda: c.filter_by_dt(q)), [x for x in ms if x.dt is not None and q.intersects(x.dt)]
+        if k == 'prop':
+            key, fn = PROP_TESTS[st[1]]
+            if any(key not in x.properties for x in ms):
+                return guarded(lambda: c.filter_by_property(key, fn)), 'KeyError'
+            per = [guarded(lambda x=x: bool(fn(x.properties[key]))) for x in ms]
+            if any(p[0] != 'Ok' for p in per):
+                return None, None
+            return guarded(lambda: c.filter_by_property(key, fn)), [x for x, p in zip(ms, per) if p[1]]
+        if k == 'tslice':
+            a, b = st[1], st[2]
+            sl = slice(None if a is None else to_dt(a), None if b is None else to_dt(b))
+            return (guarded(lambda: c[sl]),
+                    [x for x in ms if (a is None or a <= of_dt(x.start)) and (b is None or of_dt(x.end) < b)])
+        raise AssertionError(k)
+
     if r0[0] == 'Ok':
         coll = r0[1]
         members = list(coll.geoshapes)
         mids = [idmap[id(x)] for x in members]
         snap = snapshot(coll)
+        read_attrs(coll, spec.get('pre', []))          # derived attributes read (cached) BEFORE filtering
         for st in spec['steps']:
             kind = st[0]
             exp = None
             lit = None
+            extra_lits = '[]'
+            if kind == 'read':
+                read_attrs(coll, st[1])
+                continue
+            if kind == 'chain':
+                # st[1] then st[2] on its result; st[3]: attributes read on the intermediate result first
+                r1, e1 = apply_sel(coll, st[1])
+                if r1 is None:
+                    stats['skipped'] += 1
+                    continue
+                stats['steps'] += 1
+                if e1 == 'KeyError':
+                    if r1 != ('Err', 'KeyError'):
+                        fails.append(('filter_by_property_spec', f'chain {st[1][:2]}: {r1[0]} instead of KeyError'))
+                    continue
+                if r1[0] != 'Ok' or [id(x) for x in r1[1].geoshapes] != [id(x) for x in e1] or type(r1[1]) is not cls:
+                    fails.append(('filter_exact (chain, first)', f'{st[1][:2]}: result differs from the per-shape selection'))
+                    continue
+                mid = r1[1]
+                read_attrs(mid, st[3])
+                r2, e2 = apply_sel(mid, st[2])
+                if r2 is None:
+                    stats['skipped'] += 1
+                    observe(mid, '[]', f'chain/first {st[1][0]}', members)
+                    continue
+                if e2 == 'KeyError':
+                    if r2 != ('Err', 'KeyError'):
+                        fails.append(('filter_by_property_spec', f'chain {st[2][:2]}: {r2[0]} instead of KeyError'))
+                elif r2[0] != 'Ok' or [id(x) for x in r2[1].geoshapes] != [id(x) for x in e2] or type(r2[1]) is not cls:
+                    fails.append(('filter_exact (chain, second)', f'{st[1][:2]} then {st[2][:2]}: result differs from the per-shape selection '
+                                                                  f'{[idmap[id(x)] for x in e2]}'))
+                else:
+                    observe(r2[1], '[]', f'chain {st[1][0]} then {st[2][0]}', e1)
+                    stats['classes'].append('chain:' + st[1][0] + '>' + st[2][0])
+                observe(mid, '[]', f'chain/first {st[1][0]} (after filtering it again)', members)
+                if [id(x) for x in mid.geoshapes] != [id(x) for x in e1]:
+                    fails.append(('source_unchanged', 'chain: the intermediate collection changed'))
+                if snapshot(coll) != snap:
+                    fails.append(('source_unchanged', 'chain: the source collection changed'))
+                    snap = snapshot(coll)
+                continue
+            if kind == 'tslice':
+                r, e = apply_sel(coll, st)
+                stats['steps'] += 1
+                if r[0] != 'Ok' or [id(x) for x in r[1].geoshapes] != [id(x) for x in e]:
+                    fails.append(('slice (C17)', f'{st}: result differs from the selection'))
+                else:
+                    observe(r[1], '[]', 'time slice', members)
+                continue
             if kind in ('int', 'contains', 'contained_by'):
                 q = build(st[1])
                 keep.append(q)
@@ -280,7 +446,8 @@ def run_case(spec):
                 else:
                     allx = members + list(oc.geoshapes)
                     exp = ('Ok', ('TR', [idmap[id(x)] for x in sorted(allx, key=lambda x: of_dt(x.start))]))
-                lit = f'FAdd {st[1]} {listlit([shape_lit(100 + j, x) for j, x in enumerate(others)])}'
+                extra_lits = listlit([shape_lit(100 + j, x) for j, x in enumerate(others)])
+                lit = f'FAdd {st[1]} {extra_lits}'
             elif kind == 'bounds':
                 r = guarded(lambda: cls(list(members)).bounds)
                 sp = guarded(lambda: cls(list(members)).geospan)
@@ -323,7 +490,22 @@ def run_case(spec):
                 fails.append(('source_unchanged', f'{kind}: the source collection changed'))
                 snap = snapshot(coll)
             steps_lit.append(f'{lit} {out_lit(o)}')
+            if r[0] == 'Ok' and (exp is None or o == exp):
+                observe(r[1], extra_lits, kind, members)
             meta['steps'].append({'step': st[:3] if kind not in ('int', 'contains', 'contained_by', 'add') else st, 'result': o})
+        # the source, read again after everything: still its own members' values
+        fresh = cls(list(members))
+        for a in ('bounds', 'geospan', 'len'):
+            get = (lambda c: len(c)) if a == 'len' else (lambda c, a=a: getattr(c, a))
+            now, want = guarded(lambda: get(coll)), guarded(lambda: get(fresh))
+            if now != want:
+                fails.append(('source_unchanged', f'source.{a} read after the filters = {now}, of its members = {want}'))
+        if members:
+            hs, hf = guarded(lambda: [ipt(c) for c in coll.convex_hull.outline]), guarded(lambda: [ipt(c) for c in fresh.convex_hull.outline])
+            if hs != hf:
+                fails.append(('source_unchanged', f'source.convex_hull read after the filters = {hs}, of its members = {hf}'))
+        if snapshot(coll) != snap:
+            fails.append(('source_unchanged', 'the source collection changed'))
     lit = (f'FK {spec["kind"]} {listlit([shape_lit(i, x) for i, x in enumerate(objs)])} '
            f'{out_lit(first)} {listlit(steps_lit)}')
     return lit, meta, fails, stats
@@ -361,7 +543,32 @@ def gen_case(rng):
     steps.append(['in', 'fresh', 0, gen_shape(rng, 0.5)])
     steps.append(['add', kind, [gen_shape(rng, none_p if kind == 'FC' else 0.0) for _ in range(rng.randint(0, 3))]])
     steps.append(['add', 'TR' if kind == 'FC' else 'FC', [gen_shape(rng, 0.0) for _ in range(rng.randint(0, 2))]])
-    return {'kind': kind, 'shapes': shapes, 'steps': steps}
+    # chained filters (and time slices of Tracks): the second operation runs on the RESULT of the first
+    sel = [st for st in steps if st[0] in ('int', 'contains', 'contained_by', 'dt', 'iv', 'prop')]
+    chains = []
+    for _ in range(4):
+        a, b = rng.choice(sel), rng.choice(sel)
+        if kind == 'TR' and rng.random() < 0.4:
+            lo = rng.choice([None, rng.choice(ev) + rng.choice([0, 1])])
+            hi = rng.choice([None, rng.choice(ev) + rng.choice([0, 1, H])])
+            if rng.random() < 0.5:
+                a = ['tslice', lo, hi]
+            else:
+                b = ['tslice', lo, hi]
+        chains.append(['chain', a, b, rng.sample(READABLE, rng.randint(0, 3))])
+    if kind == 'TR':
+        for _ in range(2):
+            chains.append(['tslice', rng.choice([None, rng.choice(ev)]), rng.choice([None, rng.choice(ev) + rng.choice([1, H])])])
+    steps += chains
+    # derived (cached) attributes read on the SOURCE before / between the operations, in a seeded mix
+    pre = rng.sample(READABLE, rng.randint(1, 5)) if rng.random() < 0.7 else []
+    for _ in range(rng.randint(0, 2)):
+        steps.insert(rng.randint(0, len(steps)), ['read', rng.sample(READABLE, rng.randint(1, 3))])
+    if rng.random() < 0.5:       # interleave: move the chains / slices to seeded positions among the other steps
+        for c in chains:
+            steps.remove(c)
+            steps.insert(rng.randint(0, len(steps)), c)
+    return {'kind': kind, 'shapes': shapes, 'steps': steps, 'pre': pre}
 
 
 def main():
@@ -371,7 +578,7 @@ def main():
     rng = ck.rng
     quick = ck.tier == 'quick'
     cases, meta, failing = [], [], {}
-    tot = {'steps': 0, 'skipped': 0, 'asym': 0, 'proper': 0}
+    tot = {'steps': 0, 'skipped': 0, 'asym': 0, 'proper': 0, 'results': 0, 'shrunk': 0, 'hulls': 0}
     for _ in range(600 if quick else 12000):
         spec = gen_case(rng)
         lit, m, fails, stats = run_case(spec)
@@ -384,10 +591,14 @@ def main():
         ck.count(spec['kind'] + (':rejected' if m['first'][0] != 'Ok' else ''))
         for c in stats['classes']:
             ck.count('op:' + c)
-    ck.cov['evaluations'] = tot['steps'] + len(cases)
+    ck.cov['evaluations'] = tot['steps'] + tot['results'] + len(cases)
     ck.cov['collections'] = len(cases)
     ck.cov['distinct_nontrivial'] = tot['proper']
     ck.cov['asymmetric_containment_pairs'] = tot['asym']
+    ck.cov['results_whose_derived_attributes_were_read'] = tot['results']
+    ck.cov['results_with_bounds_different_from_the_source'] = tot['shrunk']
+    ck.cov['result_hulls_checked'] = tot['hulls']
+    ck.cov['collections_with_attributes_read_before_filtering'] = sum(1 for m in meta if m['spec'].get('pre'))
     ck.cov['queries_skipped_because_a_per_shape_call_raised'] = tot['skipped']
     for i in (0, len(cases) // 2):
         ck.sample(cases[i][:1500])
@@ -412,7 +623,11 @@ def main():
                    'per collection: 3-6 query shapes (with/without dt) x the three spatial filters, instants and intervals at and '
                    'around event times, a non-datetime argument, 4 property predicates (present / partly missing / missing keys, '
                    'non-bool results), len/bool/iter, every boundary index, membership of a member / an equal copy / a fresh shape, '
-                   '+ with the same and the other class, bounds and geospan. evaluations = collections built + step results compared. '
+                   '+ with the same and the other class, bounds and geospan; chained filters and Track time slices; bounds / convex_hull / '
+                   'len / centroid / geospan read on the source before or between the operations in a seeded mix (or not at all), then on '
+                   'EVERY result (filter, +, slice, chained filter): bounds = coll_bounds of exactly its members (Coq, FRes), hull vertices '
+                   'among its members\' vertices and containing all of them (exact integers), len/iter/bool; source re-read at the end. '
+                   'evaluations = collections built + step results compared + results whose derived attributes were read. '
                    'non-trivial = filter results that are a non-empty proper subset of the members',
               assumptions=['the per-shape predicates are the implementation\'s own answers observed member by member (Section variables in the theorems)',
                            'datetime -> integer microseconds UTC is a faithful abstraction of Python datetime comparison/equality/hash',
